@@ -40,7 +40,8 @@ Init ==
     /\ work \in [Blocks -> ChunkSeqs]
     /\ extra \in [Blocks -> 0..MaxExtra]
     /\ sLimit \in SLimits /\ cLimit \in CLimits
-    /\ lazy \in BOOLEAN /\ batch \in Batches /\ skip \in BOOLEAN
+    /\ lazy \in BOOLEAN /\ batch \in Batches
+    /\ skip \in (IF cLimit = 0 THEN BOOLEAN ELSE {FALSE})    \* SkipChunks makes the chunk limit moot
     /\ sRes = 0 /\ cRes = 0
     /\ pc = [b \in Blocks |-> "expand"]
     /\ pos = [b \in Blocks |-> 0]          \* postings consumed
